@@ -107,6 +107,12 @@ def seqOps : List String → State → List String → String
         match fetch s (fp == '1') res with
         | some s' => seqOps rest s' ("f" :: acc)
         | none => seqOps rest s ("BAD" :: acc)
+    -- methods of Changes that must leave the pending set alone (frame condition C40_frame):
+    -- D = EntryDeleted(dir, true), I/J = Ignore(name, false/true), A = DirAdded(missing dir)
+    | 'D' :: _ => seqOps rest s ("d" :: acc)
+    | 'I' :: _ => seqOps rest s ("i" :: acc)
+    | 'J' :: _ => seqOps rest s ("i" :: acc)
+    | 'A' :: _ => seqOps rest s ("a" :: acc)
     | 'W' :: fp :: h =>
       match bytesOfHex (String.ofList h) with
       | none => "bad-input"
